@@ -80,6 +80,23 @@ CLAIMED['C11'] = {
     'technique': 'bounded native execution of an executable contract on the real functions (labelled bounded)',
 }
 
+CLAIMED['C04'] = {
+    'category': 'proof',
+    'text': 'For the module the compiler (built from the current tree) emits for each probe theory, Verus proves on the emitted text that a GENERATED '
+            'representation invariant -- every index copy of a relation (each column order, new/old, each diagonal pattern) is the image of its primary '
+            'copy, diagonal copies hold exactly the rows satisfying all their equalities, stored components are existing elements, the type sets hold '
+            'exactly one representative per class -- is established by new() and preserved by every straight-line mutator (insert_<rel>, equate_<type>, '
+            'new_<type>), that point queries equal membership of the root tuple in the abstract relation (hence agree for equal arguments), and that '
+            'is_dirty is exact. Partial: canonicalize, recompute_model_indices, close, the iterators, evaluation functions, enum case queries and the '
+            'element index are outside Verus and are NOT covered; nothing is claimed "after close()". Programs are sampled (probes), states/arguments/histories universal.',
+    'design_ref': '§5.4, §6 C04',
+    'note': 'Assumes the runtime contracts (UF, PT units), structural derives of the newtypes, the field naming convention. See evidence.assumptions.',
+    'technique': 'contract-based deductive verification (Verus) of emitted code with generated contracts, per probe program',
+}
+CLAIMED['C05']['text'] = CLAIMED['C05']['text'] + ' Unit GEN additionally proves, on the module emitted for each probe theory, that the generated wrappers use it correctly: ' \
+    'root_ returns the representative, are_equal_ compares representatives, equate_ merges exactly the two classes (closed form of the generated equivalence), ' \
+    'new_ returns a fresh singleton element, insert_ makes the tuple visible to the point query immediately for every argument of the same classes.'
+
 NOT_APPLICABLE = {
     'C01': 'postcondition of the generated close_until loop and rule functions (extern "Rust", runtime iterators, string-templated generator): no function on that path can carry a contract Verus or Kani accepts (DESIGN §6)',
     'C02': 'needs the denotation of generated rule functions and define_*; not expressible as a contract within reach (DESIGN §6)',
@@ -95,7 +112,6 @@ NOT_APPLICABLE = {
     'C19': 'statement about two emitted texts and a linker boundary; nothing to annotate',
     'C20': 'hyperproperty over runs of generated code and iterators that are not under contract',
     # not yet built (will move to CLAIMED as units land)
-    'C04': 'not built yet in this round (unit GEN pending)',
 }
 
 
